@@ -50,6 +50,10 @@ def systems(tier):
         out.append(dict(types=["MID7"], molecules=[("MID7", 1)], box=[4.0, 4.0, 4.0], grid=GRID,
                         input=dict(kind="c", atoms=[(4, "K", "k")], coords=[(2.0, 0.5, 0.5)], box=[4.0, 4.0, 4.0]),
                         kwargs=dict(nrewind=nrewind, maxiter=2, build_res=["S"]), F=2 if tier == "quick" else 3))
+    # growth from an inner residue of a branched molecule (-start): breadth-first order differs from the residue order
+    for nrewind in (1, 2):
+        out.append(dict(types=["BR5"], molecules=[("BR5", 1)], box=[4.0, 4.0, 4.0], grid=GRID,
+                        kwargs=dict(nrewind=nrewind, maxiter=2, start=["BR5-S#4"]), F=2 if tier == "quick" else 3))
     if tier == "thorough":
         for typ in ("RING4", "RING6", "CH5"):
             for nrewind in (1, 2, 3, 5):
